@@ -58,6 +58,13 @@ def tasks_for(prop, tier):
         from . import c12
         sel = (lambda kw: bool(kw["constraints"])) if prop == "C04" else (lambda kw: bool(kw["params"]) or kw["T"][0] == "param" or kw["t0"][0] == "param")
         out += c12.generated_clone_tasks(tier, prop, select=sel)
+    if prop in ("C10", "C14"):
+        # guesses and scales of stages created from a template: every clone starts from the template's guesses (incl. T / t0);
+        # what is declared on one clone after cloning (guess, derivative scale, ...) stays with that clone
+        from . import c12
+        sel = (lambda kw: True) if prop == "C10" else (lambda kw: bool(kw.get("scales")))
+        out += c12.generated_clone_tasks(tier, prop, select=sel)
+        out += c12.generated_divergent_tasks(tier, prop, select=sel)
     if prop == "C02":
         from . import c03
         out.append(Task("C02/collocation-polynomial-tables", lambda: c03.native_collocation(only=("nodes-are", "C-is", "D-is", "tables-independent")), kind="enumerated", replay=dict(harness="colloc_probe"),
